@@ -1005,10 +1005,20 @@ class TestResult(unittest.TestResult):
             self._threads = threadsupport.enumerate()
             if not hasattr(self, "_start_time"):
                 self._start_time = time.time()
+            was_buffered = False
         else:
-            self._restoreStdStreams()
+            # The test is not over yet (tearDown, cleanups, further
+            # subtests): report the skip on the real streams, but keep
+            # buffering what the test writes.  stopTest() discards it
+            # unless a later event of this test reports it.
+            was_buffered = self._std_streams_buffered
+            if was_buffered:
+                sys.stdout = self._original_stdout
+                sys.stderr = self._original_stderr
         unittest.TestResult.addSkip(self, test, reason)
         self.options.output.test_skipped(test, reason)
+        if was_buffered:
+            self._setUpStdStreams()
 
     def addSubTest(self, test, subtest, exc_info):
         if exc_info is None:
@@ -1095,6 +1105,7 @@ class TestResult(unittest.TestResult):
             self.stop()
 
     def stopTest(self, test):
+        self._restoreStdStreams()
         self.testTearDown()
         # Without clearing, cyclic garbage referenced by the test
         # would be reported in the following test.
